@@ -4,6 +4,9 @@
    (Gen/Callbacks.v).  The step functions F are ARBITRARY. *)
 From Coq Require Import List Bool.
 From Pandora Require Import Model.Mirror Proofs.MirrorP Gen.Callbacks.
+From Coq Require Import ZArith QArith.
+From Pandora Require Import Model.MatchingCost Model.Refine Model.CrossCheck Model.Interp Spec.CrossCheck
+     Model.Criteria Model.PipelineRun Proofs.PipelineRunP Gen.Flags Gen.RefineConsts Gen.Constants.
 Import ListNotations.
 
 (* Per-run obligations on the regenerated callbacks (finite, complete computations):
@@ -96,6 +99,139 @@ Definition ex_pl : list (cbname * bool) :=
 Example C08_example_hyps : no_seg ex_pl /\ length ex_pl = 6%nat.
 Proof. split; [|reflexivity]. intros cb H. simpl in H. intuition (subst; discriminate). Qed.
 
+(* ====================================================================================================
+   The same statements for the CONCRETE step models composed as the run callbacks compose them
+   (Model/PipelineRun.v: matching_cost sad/ssd/census, disparity wta, filter median, refinement vfit/quadratic,
+   validation cross_checking_accurate with/without mc-cnn/sgm interpolation; single scale, scalar interval).
+   No abstract step function and no hypothesis about the steps is left: the facts the abstract theorem assumes
+   about cross-checking and interpolation are proved for Model/CrossCheck.v / Model/Interp.v below.
+   [penv] = the constants of the tree under test (any values: the statements hold for all of them);
+   quantifiers: every constants record E, every image pair and interval g (any sizes, masks or not), every
+   list of steps p (any length, any order, repeated steps). *)
+
+(* the hypotheses of Section C08 above, for the concrete validation step: cross-checking is a function of its two
+   arguments that returns the checked dataset, reads the other dataset only through its disparity map and returns
+   the disparity map it received; interpolation acts on one dataset *)
+Theorem C08_pipeline_validation_hypotheses : forall E thr om,
+  (forall a b, F_step E (SVal thr om) FCrossCheck [a; b] = [chk_val thr a b]) /\
+  (forall a, F_step E (SVal thr om) FInterpolate [a] = [itp_val om a]) /\
+  (forall a b b', disp_of_val b = disp_of_val b' -> chk_val thr a b = chk_val thr a b') /\
+  (forall a b, disp_of_val (chk_val thr a b) = disp_of_val a) /\
+  (forall me other other', ds_disp other = ds_disp other' -> chk thr me other = chk thr me other') /\
+  (forall me other, ds_disp (chk thr me other) = ds_disp me).
+Proof.
+  exact (fun E thr om => conj (fun a b => eq_refl) (conj (fun a => eq_refl)
+          (conj (chk_val_other thr) (conj (chk_val_disp thr) (conj (chk_other thr) (chk_disp thr)))))).
+Qed.
+
+(* one callback of the composed model IS the callback regenerated from state_machine.py run with the concrete
+   step models (re-proved against Gen/Callbacks.v at every run: an argument swapped in the source breaks it) *)
+Theorem C08_pipeline_step_is_generated_callback : forall E rdm s st,
+  seq pval (exec_step E gen_callback rdm s (to_slots st)) (to_slots (run_step E rdm s st)).
+Proof. exact bridge. Qed.
+
+(* ... and a whole run is the generated callbacks executed on the slots run_prepare fills *)
+Theorem C08_pipeline_is_generated_wiring : forall E g p,
+  seq pval (to_slots (run_pipeline E g p))
+      (fold_left (fun sl s => exec_step E gen_callback (has_validation p) s sl) p
+                 (prepare_single pval neg_val PVNone (PVImg (g_left g)) (PVImg (g_right g))
+                                 (PVZ (g_dmin g)) (PVZ (g_dmax g)))).
+Proof. exact pipeline_is_generated_wiring. Qed.
+
+(* (a) with a validation step: the whole final state of the run on (R, L, [-max, -min]) is the state of the run on
+   (L, R, [min, max]) with left and right exchanged -- in particular right products = mirrored left products and
+   conversely (disparity map, validity mask, confidence bands, interval, offset: the whole dataset; and the cost
+   volumes).  Proved by instantiating generic_cb_swap / val_swap of Proofs/MirrorP.v with F_step. *)
+Theorem C08_pipeline_mirror_state : forall E g p, has_validation p = true ->
+  run_pipeline E (mirror_images g) p = swap_st (run_pipeline E g p).
+Proof. exact pipeline_mirror. Qed.
+
+Theorem C08_pipeline_right_is_mirrored_left : forall E g p, has_validation p = true ->
+  st_ld (run_pipeline E (mirror_images g) p) = st_rd (run_pipeline E g p) /\
+  st_rd (run_pipeline E (mirror_images g) p) = st_ld (run_pipeline E g p) /\
+  st_lcv (run_pipeline E (mirror_images g) p) = st_rcv (run_pipeline E g p) /\
+  st_rcv (run_pipeline E (mirror_images g) p) = st_lcv (run_pipeline E g p).
+Proof. exact pipeline_right_is_mirrored_left. Qed.
+
+(* (b) without a validation step the right cost volume and the right dataset are never written *)
+Theorem C08_pipeline_no_validation_right_empty : forall E g p, has_validation p = false ->
+  st_rcv (run_pipeline E g p) = None /\ st_rd (run_pipeline E g p) = None.
+Proof. exact pipeline_no_validation_right_empty. Qed.
+
+(* (c) adding a cross-checking step without interpolation at the end of a pipeline without validation: same left
+   cost volume; the left dataset keeps its disparity map, shape, interval and offset, gains one band, and a flag
+   can only gain bit 8 or bit 9 (a border pixel of a window > 1 holds bit 0 alone)  [xcheck_only_flags] *)
+Theorem C08_pipeline_xcheck_keeps_left_disparity : forall E g p thr, has_validation p = false ->
+  let s0 := run_pipeline E g p in
+  let s1 := run_pipeline E g (p ++ [SVal thr None]) in
+  st_lcv s1 = st_lcv s0 /\
+  match st_ld s0, st_ld s1 with
+  | Some d0, Some d1 =>
+    ds_disp d1 = ds_disp d0 /\ ds_nr d1 = ds_nr d0 /\ ds_nc d1 = ds_nc d0 /\
+    ds_dmin d1 = ds_dmin d0 /\ ds_dmax d1 = ds_dmax d0 /\ ds_offset d1 = ds_offset d0 /\
+    (d1 = d0 \/ exists band, ds_bands d1 = ds_bands d0 ++ [band]) /\
+    (ds_nc d0 <= 2 ^ 63 -> forall r c, 0 <= r < ds_nr d0 -> 0 <= c < ds_nc d0 ->
+       if is_border (ds_nr d0) (ds_nc d0) (ds_offset d0) r c
+       then ds_mask d1 r c = ds_mask d0 r c \/ (0 < ds_offset d0 /\ ds_mask d1 r c = 1)
+       else exists v, ds_mask d1 r c = Z.lor (ds_mask d0 r c) (verdict_bit v))%Z
+  | None, None => True
+  | _, _ => False
+  end.
+Proof. exact pipeline_xcheck_keeps_left. Qed.
+
+(* the left data of a pipeline without validation step do not depend on whether right products are computed *)
+Theorem C08_pipeline_left_indep_of_right : forall E p, has_validation p = false -> forall a b, left_eq a b ->
+  left_eq (run_steps E true p a) (run_steps E false p b).
+Proof. exact run_steps_left. Qed.
+
+(* the glue itself: in every run (any steps, validation or not) each product is computed on the image of its own
+   side and on the interval of its own side -- [min, max] for the left cost volume / dataset, [-max, -min] for the
+   right ones (a callback that hands the left interval or the left cost volume to the right pass breaks the
+   bridge theorem above; this is what the composed model then computes) *)
+Theorem C08_pipeline_intervals_and_shapes : forall E g p,
+  let st := run_pipeline E g p in
+  st_L st = g_left g /\ st_R st = g_right g /\
+  st_lmin st = g_dmin g /\ st_lmax st = g_dmax g /\ st_rmin st = (- g_dmax g)%Z /\ st_rmax st = (- g_dmin g)%Z /\
+  (forall cv, st_lcv st = Some cv ->
+     cv_dmin cv = g_dmin g /\ cv_dmax cv = g_dmax g /\ cv_ny cv = im_ny (g_left g) /\ cv_nx cv = im_nx (g_left g)) /\
+  (forall cv, st_rcv st = Some cv ->
+     cv_dmin cv = (- g_dmax g)%Z /\ cv_dmax cv = (- g_dmin g)%Z /\
+     cv_ny cv = im_ny (g_right g) /\ cv_nx cv = im_nx (g_right g)) /\
+  (forall d, st_ld st = Some d ->
+     ds_dmin d = g_dmin g /\ ds_dmax d = g_dmax g /\ ds_nr d = im_ny (g_left g) /\ ds_nc d = im_nx (g_left g)) /\
+  (forall d, st_rd st = Some d ->
+     ds_dmin d = (- g_dmax g)%Z /\ ds_dmax d = (- g_dmin g)%Z /\
+     ds_nr d = im_ny (g_right g) /\ ds_nc d = im_nx (g_right g)).
+Proof. exact pipeline_intervals_and_shapes. Qed.
+
+(* Non-vacuity of the concrete statements: a 3 x 6 pair (mask on the right image), interval [-1, 1], the pipeline
+   sad / wta / median / vfit / cross-checking + sgm interpolation, with the constants of the tree under test.  The
+   right and left products differ, the right products are the left products of the mirrored run (computed). *)
+Definition ex_E : penv :=
+  mkPenv (mkEnv Gen.Flags.consts flag_sites) (mkK msk_invalid msk_stopped) msk_pixel_invalid
+         wta_argmin_block median_block 0 1.
+Definition rows_img (l : list (list Z)) : MatchingCost.img :=
+  fun r c => if ((r <? 0) || (c <? 0))%Z then 0%Z else nth (Z.to_nat c) (nth (Z.to_nat r) l []) 0%Z.
+Definition ex_L := mkImage 3 6 (rows_img [[1;5;9;2;7;3];[4;4;8;1;6;2];[3;9;1;5;2;8]]%Z) None.
+Definition ex_R := mkImage 3 6 (rows_img [[5;9;2;7;3;1];[4;8;1;6;2;4];[9;1;5;2;8;3]]%Z)
+                           (Some (rows_img [[0;0;0;0;0;0];[0;0;1;0;0;0];[0;0;0;0;0;0]]%Z)).
+Definition ex_g := mkImages ex_L ex_R (-1) 1.
+Definition ex_p := [SMc Sad 1 1; SDisp None; SFilter 3; SRefine Vfit; SVal 1 (Some Sgm)].
+Definition show_d (o : option dataset) : list (list (option Q * Z)) :=
+  match o with
+  | Some d => map (fun r => map (fun c => (ds_disp d r c, ds_mask d r c)) [0;1;2;3;4;5]%Z) [0;1;2]%Z
+  | None => []
+  end.
+Example C08_pipeline_example :
+  has_validation ex_p = true /\
+  show_d (st_rd (run_pipeline ex_E ex_g ex_p)) = show_d (st_ld (run_pipeline ex_E (mirror_images ex_g) ex_p)) /\
+  nth 1 (show_d (st_rd (run_pipeline ex_E ex_g ex_p))) [] =
+    [(Some 0%Q, 12); (Some (2 # 2)%Q, 8); (None, 3); (Some (2 # 2)%Q, 8); (Some 1%Q, 8); (Some 1%Q, 28)]%Z /\
+  nth 1 (show_d (st_ld (run_pipeline ex_E ex_g ex_p))) [] =
+    [(Some 0%Q, 12); (Some (-1)%Q, 8); (Some (-1)%Q, 8); (Some (-1)%Q, 16); (Some (-1)%Q, 8); (Some (-1)%Q, 12)]%Z /\
+  st_rd (run_pipeline ex_E ex_g [SMc Sad 1 1; SDisp None; SFilter 3]) = None.
+Proof. vm_compute. repeat split. Qed.
+
 Print Assumptions C08_callbacks_mirrored.
 Print Assumptions C08_callbacks_lclosed.
 Print Assumptions C08_callbacks_rquiet.
@@ -104,3 +240,12 @@ Print Assumptions C08_mirror_multi_scale.
 Print Assumptions C08_no_validation_right_empty.
 Print Assumptions C08_left_indep_of_right.
 Print Assumptions C08_xcheck_keeps_left_disparity.
+Print Assumptions C08_pipeline_validation_hypotheses.
+Print Assumptions C08_pipeline_step_is_generated_callback.
+Print Assumptions C08_pipeline_is_generated_wiring.
+Print Assumptions C08_pipeline_mirror_state.
+Print Assumptions C08_pipeline_right_is_mirrored_left.
+Print Assumptions C08_pipeline_no_validation_right_empty.
+Print Assumptions C08_pipeline_xcheck_keeps_left_disparity.
+Print Assumptions C08_pipeline_left_indep_of_right.
+Print Assumptions C08_pipeline_intervals_and_shapes.
